@@ -606,6 +606,9 @@ func (handler *Handler) processBinaryDataRow(ctx context.Context, rowData []byte
 	var output []byte
 
 	handler.logger.Debugln("Process data rows in binary protocol")
+	if len(rowData) == 0 {
+		return nil, base_mysql.ErrMalformPacket
+	}
 	// no data in response
 	if rowData[0] == EOFPacket {
 		return rowData, nil
@@ -619,6 +622,10 @@ func (handler *Handler) processBinaryDataRow(ctx context.Context, rowData []byte
 	// 1 - packet header
 	// 7 + 2 offset from docs
 	pos = 1 + ((len(fields) + 7 + 2) >> 3)
+	// a row shorter than its NULL bitmap
+	if len(rowData) < pos {
+		return nil, base_mysql.ErrMalformPacket
+	}
 	nullBitmap := rowData[1:pos]
 	output = append(output, rowData[:pos]...)
 
@@ -662,6 +669,11 @@ func (handler *Handler) extractData(pos int, rowData []byte, field *ColumnDescri
 	fieldType := field.Type
 	if field.changed {
 		fieldType = field.originType
+	}
+
+	// fixed-width values are sliced out of the row below: a row that ends inside a value is malformed
+	if width, ok := base_mysql.NumericTypesStorageBytes[fieldType]; ok && len(rowData)-pos < int(width) {
+		return nil, 0, base_mysql.ErrMalformPacket
 	}
 
 	switch fieldType {
